@@ -82,6 +82,42 @@ theorem C19_required (a : Args) :
   | none => simp
   | some items => simp [List.any_eq_true]
 
+/-- The tag scanner's default (DefaultTagScanDefinitionRegistryPostProcessor, `Required` field = `req`, set or left at
+    its zero value) never changes required-ness: the marker it stores carries no items, and it is stored only when the
+    tag has no required argument. -/
+theorem C19_scan_required (req : Bool) (a : Args) : isRequired (scanDefault req a) = isRequired a := by
+  have hk : formatArgType? kRequired = some kRequired := by decide
+  have hs : ∀ m v, setArg m kRequired v = ainsert kRequired v m := by
+    intro m v
+    have e : kRequired = 82 :: ofString "equired" := by decide
+    have u : upperFirst 82 = [82] := by decide
+    rw [e]; simp [setArg, u]
+  unfold scanDefault
+  split
+  · rename_i hc
+    simp only [Bool.and_eq_true, Bool.not_eq_true'] at hc
+    have hnone : alookup kRequired a = none := by
+      have h2 := hc.2
+      simp only [has, find, hk] at h2
+      cases h : alookup kRequired a with
+      | none => rfl
+      | some items => simp [h] at h2
+    simp [isRequired, has, find, hk, hs, alookup_ainsert_same, hnone]
+  · rfl
+
+/-- Scanning is total, whatever the scanner's `Required` field. -/
+theorem C19_scan_total (req : Bool) (s : Bytes) : ∃ v a, scan? req s = some (v, a) := by
+  obtain ⟨v, a, hp⟩ := parse?_total s
+  exact ⟨v, scanDefault req a, by simp [scan?, hp]⟩
+
+/-- End to end through a scanner: the scanned point is optional exactly when the TAG TEXT has a required argument
+    listing the item `false` — for every tag text and every setting of the scanner's `Required` field
+    (in particular a user-defined scanner that leaves it unset makes nothing optional by itself). -/
+theorem C19_scan_only_explicit_false (req : Bool) (s v : Bytes) (a : Args) (h : parse? s = some (v, a)) :
+    ∃ a', scan? req s = some (v, a') ∧
+      (isRequired a' = false ↔ ∃ items, alookup kRequired a = some items ∧ vFalse ∈ items) :=
+  ⟨scanDefault req a, by simp [scan?, h], by rw [C19_scan_required]; exact C19_required a⟩
+
 /-- Faithfulness: a structured tag `v,name=i1 i2,…` (value and items bracket-balanced with separators only
     inside brackets, names non-empty without `=` `,` or brackets) parses to exactly what was rendered:
     the value, and the arguments stored by TagArg.Set in order (so a repeated name keeps the last). -/
@@ -107,6 +143,11 @@ example : WFArg (ofString "x", [[]]) := ⟨by decide, by decide, by decide, by d
 example : parse? (render (ofString "v") [(ofString "q", [ofString "a", ofString "(b c)"]), (ofString "q", [ofString "z"])])
     = some (ofString "v", [(ofString "Q", [ofString "z"])]) := by decide
 example : render (ofString "v") [(ofString "q", [ofString "a", ofString "(b c)"])] = ofString "v,q=a (b c)" := by decide
+-- a scanner with Required left unset stores nothing; one with Required=true stores the bare marker; neither makes `main` optional
+example : scan? false (ofString "main,qualifier=[x y]") = some (ofString "main", [(ofString "Qualifier", [ofString "[x y]"])]) := by decide
+example : scan? true (ofString "main") = some (ofString "main", [(ofString "Required", [])]) := by decide
+example : (scan? false (ofString "main")).map (fun va => isRequired va.2) = some true := by decide
+example : (scan? true (ofString "main,required=false")).map (fun va => isRequired va.2) = some false := by decide
 -- the unbalanced corner: still total, still in range
 example : parse? (ofString "),(x") = some (ofString "),", [(ofString "X", [[]])]) := by decide
 
